@@ -169,6 +169,38 @@ func sugarGuard(name, from string) transFunc {
 		}}
 }
 
+// ---- the lock-protected wrappers: sync.Mutex Lock/Unlock, the wrapped WriteSyncer and the bufio.Writer are recorded
+// intrinsics; what is proved is the ORDER: everything happens between Lock and Unlock, Unlock always last.
+func lockedFunc(recv, name, file string) transFunc {
+	return transFunc{file: file, recv: recv, name: name, lean: recv + "_" + name,
+		fields: map[string]fieldSpec{"ws": {"ws", "WriteSyncer"}, "#ev": {"ev", "[]Event"}},
+		calls: map[string]shim{
+			"recv.Lock":         {kind: "extstmt", f: "Mutex.Lock", trace: "#ev"}, // the embedded sync.Mutex
+			"recv.Unlock":       {kind: "extstmt", f: "Mutex.Unlock", trace: "#ev"},
+			"WriteSyncer.Write": {kind: "extstmt", f: "WriteSyncer.Write", res: []string{"int", "error"}, trace: "#ev"},
+			"WriteSyncer.Sync":  {kind: "extstmt", f: "WriteSyncer.Sync", res: []string{"error"}, trace: "#ev"},
+		}}
+}
+
+// BufferedWriteSyncer: the bufio.Writer is a VALUE that Flush / Write replace (and record); Available / Buffered read it.
+// initialize() (ticker, goroutine, bufio.NewWriterSize) is an intrinsic on the fields it sets.
+func bwsFunc(name string) transFunc {
+	return transFunc{file: "zapcore/buffered_write_syncer.go", recv: "BufferedWriteSyncer", name: name, lean: "BufferedWriteSyncer_" + name,
+		fields: map[string]fieldSpec{"mu": {"mu", "Mutex"}, "initialized": {"initialized", "bool"}, "writer": {"writer", "BufioWriter"},
+			"WS": {"ws", "WriteSyncer"}, "Size": {"size", "int"}, "#ev": {"ev", "[]Event"}},
+		calls: map[string]shim{
+			"Mutex.Lock":            {kind: "extstmt", f: "Mutex.Lock", trace: "#ev"},
+			"Mutex.Unlock":          {kind: "extstmt", f: "Mutex.Unlock", trace: "#ev"},
+			"recv.initialize":       {kind: "extfld", f: "BufferedWriteSyncer.initialize", flds: []string{"initialized", "writer", "WS", "Size"}},
+			"BufioWriter.Available": {kind: "ext", f: "bufio.Available", res: []string{"int"}},
+			"BufioWriter.Buffered":  {kind: "ext", f: "bufio.Buffered", res: []string{"int"}},
+			"BufioWriter.Flush":     {kind: "mutext", f: "bufio.Flush", res: []string{"error"}, trace: "#ev"},
+			"BufioWriter.Write":     {kind: "mutext", f: "bufio.Write", res: []string{"int", "error"}, trace: "#ev"},
+			"WriteSyncer.Sync":      {kind: "extstmt", f: "WriteSyncer.Sync", res: []string{"error"}, trace: "#ev"},
+			"multierr.Append":       {kind: "builtin", f: "append...", res: []string{"error"}},
+		}}
+}
+
 var jsonEncFields = map[string]fieldSpec{
 	"buf":            {"buf", "Buffer"},
 	"spaced":         {"spaced", "bool"},
@@ -261,6 +293,12 @@ var transSpecs = []transSpec{
 				// decodeRune(x) is utf8.DecodeRuneInString / DecodeRune: (rune, size), modelled by Esc.validLen
 				"DecodeFn()": {kind: "extstmt", f: "decodeRune", res: []string{"i32", "int"}},
 			})},
+	}},
+	{table: "TransLocked", funcs: []transFunc{
+		lockedFunc("lockedWriteSyncer", "Write", "zapcore/write_syncer.go"),
+		lockedFunc("lockedWriteSyncer", "Sync", "zapcore/write_syncer.go"),
+		bwsFunc("Write"),
+		bwsFunc("Sync"),
 	}},
 	{table: "TransLogger", funcs: []transFunc{
 		{file: "logger.go", name: "terminalHookOverride", lean: "terminalHookOverride", types: loggerTypes, consts: hookConsts},
